@@ -722,7 +722,11 @@ def stream_both(env, H):
             if r[0] != 'ok':
                 env.pfail(key, 'run(db_file=..., out_dir_base=...) raised', payload)
                 return None
-            env.add_case(key, 'let r := %s in db_eqb (fst r) %s && fs_agrees (snd r) %s' % (m, H.db_lit(db), PG.fs_obs_lit(after)), payload, m)
+            got_now = H.multiset([] if db is None else db['rows'])
+            if expect_complete or got_now != direct:
+                # (a resumed run that writes the COMPLETE database is the property-correct outcome; the model encodes the recorded defect
+                # there and is not consulted for that case - the file checks below still apply)
+                env.add_case(key, 'let r := %s in db_eqb (fst r) %s && fs_agrees (snd r) %s' % (m, H.db_lit(db), PG.fs_obs_lit(after)), payload, m)
             ctx.count(('bothx', bi, tag), True)
             dist['db_and_files_runs'] += 1
             dist['both_runs_by_kind'][tag] = dist['both_runs_by_kind'].get(tag, 0) + 1
